@@ -703,10 +703,19 @@ class World:
                 self.probe("probe.miss_fill")
                 if self.fam == "cs" and self.cache._cache.get(self.keys[k], got) != got:
                     self.probe("probe.fill_skipped_newer_entry")
+                elif self.fam == "cs" and self.wb and "regressed" in self._backing_src(k, got):
+                    # a (legitimately concurrent) slow read has just cached a value that an in-flight flush write
+                    # had put back into the store over a later write: later hits will serve it
+                    self.probe("probe.fill_cached_regressed_backing_value")
             return
         known = {_wval(w) for w in self.writes[k]} | {self.initial.get(k, ABSENT)}
         what = "never-written" if got not in known else ("lost-write" if got is None else "stale-read")
         after = latest["kind"] if latest is not None else "initial"
+        if rec.get("src") == "fill" and self.fam == "cs":
+            bs = self._backing_src(k, got)
+            if "regressed" in bs:
+                # the cache only mirrors the store here: name the store-level cause
+                rec["src"] = f"fill-of-{bs}"
         if rec.get("src") == "backing":
             rec["src"] = self._backing_src(k, got)
             if any(w["kind"] == "delete" and w["inv"] < rec["ret"] and (w["ret"] is None or w["ret"] > rec["inv"])
@@ -761,6 +770,17 @@ class World:
             e = self.cache._cache.get(key)
             if e is not None and e.value == got:
                 age = rec["t_inv"] - e.cached_at.nanoseconds
+                refetched = rec["t_ret"] - rec["t_inv"] > self.sc["lat"]["r"] * 1000
+                age_wake = rec["t_ret"] - e.cached_at.nanoseconds
+                if not refetched and age_wake > self.hard_ns + self.sc["lat"]["c"] * 1000:
+                    # the reader picked this entry when it woke up (it returned in that same instant, one cache-read
+                    # latency of slack granted): at that instant the entry was already older than the hard TTL
+                    raise Violation(f"{P}/hard-ttl/SoftTTLCache/coalesced-reader-served-entry-expired-at-wakeup",
+                                    f"get({key}) invoked at t={rec['t_inv']}ns joined an in-flight refresh, woke at "
+                                    f"t={rec['t_ret']}ns and was served the entry cached at {e.cached_at.nanoseconds}ns "
+                                    f"(age at wake-up {age_wake}ns > hard_ttl {self.hard_ns}ns)")
+                if not refetched and age_wake > self.hard_ns // 2:
+                    self.probe("probe.sttl_coalesced_served_entry_past_half_hard_ttl")
                 if age > self.hard_ns:
                     raise Violation(f"{P}/hard-ttl/SoftTTLCache/coalesced-reader-served-expired-entry",
                                     f"get({key}) invoked at t={rec['t_inv']}ns joined an in-flight refresh and was served "
